@@ -1,6 +1,7 @@
 package main
 
 import (
+	"encoding/json"
 	"bytes"
 	"fmt"
 	"math/rand"
@@ -58,7 +59,86 @@ func traceAuditFmt(o opts) error {
 			b01(valid), hx(e.Principal.Hostname), hx(ip), hx(e.Principal.User), strings.Join(ts, "+"), hx(string(e.Action)),
 			b01(e.Authorized), hx(e.Secret), e.SecretVersion, e.ID, hb(buf.Bytes()))
 	}
+	if err := auditSharedFile(o); err != nil {
+		return err
+	}
 	return auditAfterClose(o)
+}
+
+// auditSharedFile: the log file as the operating system's tools treat it.  (a) two writers on
+// one file (the old process finishing its last requests while the new one has started): every
+// record of both is a whole line of the file; (b) the file is rotated in place (copied, then
+// truncated to nothing - logrotate's copytruncate): the next record is the first line of the
+// file, not something after a hole.  Both are what appending (O_APPEND) gives.
+//
+//	auditfile kind=<two|truncate> lines= want= wellformed=<0|1> nul=<0|1>
+func auditSharedFile(o opts) error {
+	if o.dir == "" {
+		return nil
+	}
+	os.MkdirAll(o.dir, 0700)
+	entry := func(i int) *audit.Entry {
+		return &audit.Entry{Principal: audit.Principal{Hostname: fmt.Sprintf("host%d.example.ts.net", i), User: "u@example.com"},
+			Action: acl.ActionGet, Authorized: true, Secret: fmt.Sprintf("shared/secret-%d-%s", i, strings.Repeat("x", i%7*9)), SecretVersion: api.SecretVersion(i)}
+	}
+	check := func(kind, p string, want int) {
+		bs, _ := os.ReadFile(p)
+		lines, ok := 0, true
+		for _, ln := range bytes.Split(bytes.TrimSuffix(bs, []byte("\n")), []byte("\n")) {
+			if len(ln) == 0 {
+				continue
+			}
+			lines++
+			var e map[string]any
+			if json.Unmarshal(ln, &e) != nil || e["principal"] == nil || e["action"] == nil || e["id"] == nil {
+				ok = false
+			}
+		}
+		emit("auditfile\tkind=%s\tlines=%d\twant=%d\twellformed=%s\tnul=%s", kind, lines, want, b01(ok), b01(bytes.IndexByte(bs, 0) >= 0))
+	}
+	{
+		p := filepath.Join(o.dir, "audit-two.log")
+		os.Remove(p)
+		w1, err := audit.NewFile(p)
+		if err != nil {
+			return err
+		}
+		w1.WriteEntries(entry(1), entry(2))
+		w2, err := audit.NewFile(p)
+		if err != nil {
+			return err
+		}
+		for i := 3; i <= 10; i++ {
+			if i%2 == 0 {
+				w1.WriteEntries(entry(i))
+			} else {
+				w2.WriteEntries(entry(i))
+			}
+		}
+		w1.Close()
+		w2.WriteEntries(entry(11))
+		w2.Close()
+		check("two", p, 11)
+		os.Remove(p)
+	}
+	{
+		p := filepath.Join(o.dir, "audit-rot.log")
+		os.Remove(p)
+		w, err := audit.NewFile(p)
+		if err != nil {
+			return err
+		}
+		for i := 1; i <= 5; i++ {
+			w.WriteEntries(entry(i))
+		}
+		os.Truncate(p, 0) // the copy was taken; the file starts again
+		w.WriteEntries(entry(6))
+		w.WriteEntries(entry(7))
+		w.Close()
+		check("truncate", p, 2)
+		os.Remove(p)
+	}
+	return nil
 }
 
 // auditAfterClose: a database whose audit log is a real file; the log is closed (the server is
